@@ -258,7 +258,11 @@ class Ctx:
         self.layer = layer
         if shrink_budget is None:
             shrink_budget = 300 if self.tier == "quick" else 1500
-        state = {"failed": False, "best": None, "bestkey": None, "shrinks": 0}
+        # "seen" = hashes of every case that failed so far: once the shrink budget is spent, unseen candidates are
+        # passed without evaluation (so the shrinker stops), cases that failed before are evaluated truthfully (so
+        # Hypothesis' final replay of *its* best example reproduces and no Flaky error arises).  The last failing
+        # execution is the final replay, i.e. Hypothesis' minimal example.
+        state = {"failed": False, "best": None, "seen": set(), "shrinks": 0}
 
         @hypothesis.seed(self.derived_seed(layer))
         @settings(
@@ -275,14 +279,15 @@ class Ctx:
         def test(case):
             if state["failed"]:
                 state["shrinks"] += 1
-                if state["shrinks"] > shrink_budget and case_hash(case) != state["bestkey"]:
+                if state["shrinks"] > shrink_budget and case_hash(case) not in state["seen"]:
                     return
             elif self.expired():
                 self.stats.skipped_deadline += 1
                 return
             failures = self.evaluate(oracle, case, count=not state["failed"])
             if failures:
-                state.update(failed=True, best=(case, failures), bestkey=case_hash(case))
+                state.update(failed=True, best=(case, failures))
+                state["seen"].add(case_hash(case))
                 raise Violation(failures[0][0])
 
         try:
@@ -407,7 +412,7 @@ def write_replay(pid, v):
     os.makedirs(d, exist_ok=True)
     path = os.path.join(d, "%s.json" % case_hash(v["case"]))
     with open(path, "w") as f:
-        json.dump({"property": pid, "layer": v.get("layer"), "case": v["case"], "failures": v.get("failures")}, f, indent=1, default=repr)
+        json.dump({"property": pid, "layer": v.get("layer"), "case": v["case"], "failures": (v.get("failures") or [])[:12]}, f, indent=1, default=repr)
     return path
 
 
